@@ -581,13 +581,10 @@ ImplCrashes(c, env, F) ==
     /\ \/ ImplDefCrash(c, F)
        \/ "CRASH" \in ToSet(ImplRun(c, env, F).rets)
 \* the same check in ordinary code (`if sys.version_info > "3":` in a function body):
-\* name_check_visitor.py:3569-3575 applies the operator to sys.version_info and the literal
-\* right-hand side unguarded, for the four ordering operators
-ImplTwinRaises(env, x) ==
-    IF x.k = "not" THEN FALSE ELSE
-    /\ "twin" \notin Fixed                       \* (repair: the application is guarded)
-    /\ x.k = "ver" /\ ~HasX(x.tup) /\ x.op \in {"lt", "le", "gt", "ge"}
-    /\ PyVerCompare(env.ver, x) = "err"
+\* name_check_visitor.py:3569-3581 applies the operator to sys.version_info and the literal
+\* right-hand side for the four ordering operators, guarded by try / except since repo 55a5b7d
+\* (before it the checker raised whenever Python's comparison does: found by this slice's twins)
+ImplTwinRaises(env, x) == FALSE
 
 (***************************************************************************)
 (* Known deviations of the implementation from the specification           *)
@@ -669,8 +666,6 @@ StatusClass(c, env) ==
 Dev_UnsupportedConditionNotRejected(c, env) == "unsupported-condition-form-not-rejected" \in StatusClass(c, env)
 Dev_InvalidOrOperandCrashes(c, env) == "invalid-or-operand-crashes-call" \in StatusClass(c, env)
 Dev_VersionSubscriptRejected(c, env) == "version-subscript-check-rejected" \in StatusClass(c, env)
-\* ordinary code: version-check-invalid-rhs-crashes-ordinary-code
-Dev_OrdinaryVersionCheckRaises(env, x) == ImplTwinRaises(env, x)
 
 \* argument kinds: the three documented predicates (DEFAULT and UNKNOWN are indistinguishable)
 KindsAgree(c, posOf) ==
